@@ -1310,6 +1310,9 @@ func opTable() map[string]func(*Interp) error {
 		}
 		n, ok := in.top(1).(Int)
 		if !ok || !isProc(in.top(0)) {
+			if ok && n < 0 {
+				return psErr("repeat", "typecheck", "rangecheck")
+			}
 			return psErr("repeat", "typecheck")
 		}
 		if n < 0 {
